@@ -264,6 +264,14 @@ func cmdCheck(args []string) int {
 				preSolved[o] = true
 			}
 		}
+		if hasTag(vc.fc.Tags, *prop) {
+			for _, o := range vc.markObligations() {
+				if hasTag(o.Tags, *prop) {
+					all = append(all, o)
+					preSolved[o] = true
+				}
+			}
+		}
 		if *prop == "C19" {
 			for _, o := range vc.taintObligations() {
 				all = append(all, o)
